@@ -72,6 +72,11 @@ impl VMap {
     fn insert(&mut self, k: Gc<ObjString>, v: Value) -> (r: Option<Value>) ensures final(self).view == old(self).view.insert(k.id(), v) { unimplemented!() }
     #[verifier::external_body]
     fn remove(&mut self, k: &Gc<ObjString>) -> (r: Option<Value>) ensures final(self).view == old(self).view.remove(k.id()) { unimplemented!() }
+    // R24: `entry(k).or_insert(v)` — inserts only when the key is absent
+    #[verifier::external_body]
+    fn entry_or_insert(&mut self, k: Gc<ObjString>, v: Value)
+        ensures old(self).view.dom().contains(k.id()) ==> final(self).view == old(self).view, !old(self).view.dom().contains(k.id()) ==> final(self).view == old(self).view.insert(k.id(), v)
+    { unimplemented!() }
     // `for (name, method) in &other { self.insert(*name, *method); }` — std iteration visits every entry once
     #[verifier::external_body]
     fn insert_all_from(&mut self, other: &VMap)
@@ -290,6 +295,7 @@ impl Vm {
     //@  ensures @superclass_must_be_a_class !(old(self).stack[old(self).stack.len() - 2] is ObjClass) ==> final(self).raised == Some(ErrorKind::RuntimeError) && final(self).working_class_def == old(self).working_class_def
     //@end
     //@fn file=yarel/src/vm.rs path=Vm::define_method ret=r
+    //@  rewrite R24
     //@  requires old(self).stack.len() >= 1, old(self).working_class_def is Some
     //@  ensures @own_method_overrides_inherited r is Ok && final(self).working_class_def is Some && final(self).working_class_def->0.class.methods.view == old(self).working_class_def->0.class.methods.view.insert(name.id(), old(self).stack.last())
     //@  ensures is_static ==> final(self).working_class_def->0.metaclass.methods.view == old(self).working_class_def->0.metaclass.methods.view.insert(name.id(), old(self).stack.last())
